@@ -55,6 +55,7 @@ type HarnessCfg struct {
 	MustAssert []string           `json:"must_assert"`
 	Tiers      map[string]TierCfg `json:"tiers"`
 	About      string             `json:"about"`
+	Labels     []string           `json:"labels"`
 	NoReplay   bool               `json:"no_replay"`
 }
 
@@ -284,7 +285,7 @@ func cmdCheck(id, tier string) int {
 			eng.MaxConcretize = 16
 		}
 		eng.Params = tc.Params
-		h := &interp.Harness{Pkg: hc.Pkg, Func: hc.Func, Property: cfg.Property, Explore: hc.Explore, Preempt: tc.Preempt}
+		h := &interp.Harness{Pkg: hc.Pkg, Func: hc.Func, Property: cfg.Property, Explore: hc.Explore, Preempt: tc.Preempt, Labels: hc.Labels}
 		hr, err := eng.Run(h)
 		if err != nil {
 			problems = append(problems, err.Error())
@@ -710,6 +711,8 @@ func cmdRun(args []string) int {
 	explore := fs.Bool("explore", false, "scheduler exploration")
 	preempt := fs.Int("preempt", 2, "preemption budget")
 	prop := fs.String("property", "", "property id (for known findings)")
+	params := fs.String("params", "", "harness params k=v,k=v")
+	labels := fs.String("labels", "", "comma-separated label prefixes to check")
 	fs.Parse(args)
 	ov, _, err := buildOverlay()
 	if err != nil {
@@ -739,7 +742,20 @@ func cmdRun(args []string) int {
 		json.Unmarshal(kb, &kf)
 		eng.Known = kf.Findings
 	}
-	hr, err := eng.Run(&interp.Harness{Pkg: *pkg, Func: *fn, Property: *prop, Explore: *explore, Preempt: *preempt})
+	if *params != "" {
+		eng.Params = map[string]int{}
+		for _, kv := range strings.Split(*params, ",") {
+			if k, v, ok := strings.Cut(kv, "="); ok {
+				n, _ := strconv.Atoi(v)
+				eng.Params[k] = n
+			}
+		}
+	}
+	var lbls []string
+	if *labels != "" {
+		lbls = strings.Split(*labels, ",")
+	}
+	hr, err := eng.Run(&interp.Harness{Pkg: *pkg, Func: *fn, Property: *prop, Explore: *explore, Preempt: *preempt, Labels: lbls})
 	if err != nil {
 		fmt.Fprintln(os.Stderr, err)
 		return 2
